@@ -44,6 +44,7 @@ class Accessor:
         self.kind, self.w, self.enum, self.cpp = kind, w, enum, cpp
         self.id = None
         self.module = None
+        self.scheme = (0, "LE")     # how the module spells the byte orders (ModuleSpec.scheme, .default)
 
     @property
     def ut(self):
@@ -60,7 +61,7 @@ class Accessor:
 
     def describe(self):
         return dict(order=self.order, byte_offset=self.boff, container_bytes=self.c, path=self.path,
-                    kind=self.kind, width=self.w, enum=self.enum, cpp=self.cpp)
+                    kind=self.kind, width=self.w, enum=self.enum, cpp=self.cpp, scheme=list(self.scheme))
 
     def key(self):
         return (self.order, self.boff, self.c, tuple(self.path), self.kind, self.w, self.enum)
@@ -189,8 +190,16 @@ def type_text(kind, enum):
 
 
 class ModuleSpec:
-    def __init__(self, name, opt=True):
+    """scheme says how the byte orders reach the fields of Top:
+         0  every field carries its own [byte_order] attribute;
+         1  a module-level $default D, field attributes only where the order differs, and a decoy
+            structure BEFORE Top whose own $default is the opposite of D (must not leak into Top);
+         2  a module-level $default opposite to D, a structure-level $default D on Top, field
+            attributes only where the order differs, and a decoy structure after Top."""
+
+    def __init__(self, name, opt=True, scheme=0, default="LE"):
         self.name, self.opt = name, opt
+        self.scheme, self.default = scheme, default
         self.types = []        # BitsType (declaration order: inner types first)
         self.top_lines = []
         self.accessors = []
@@ -209,19 +218,28 @@ class ModuleSpec:
         self._nf += 1
         nm = "t%d" % self._nf
         self.top_lines.append("  %d [+%d]  %s  %s" % (boff, c, type_text_, nm))
-        if order in ORDER_ATTR:
-            self.top_lines.append('    [byte_order: "%s"]' % ORDER_ATTR[order])
+        if self.scheme == 0:
+            if order in ORDER_ATTR:
+                self.top_lines.append('    [byte_order: "%s"]' % ORDER_ATTR[order])
+        elif order != self.default:
+            self.top_lines.append('    [byte_order: "%s"]' % ORDER_ATTR.get(order, "Null"))
         self.size = max(self.size, boff + c)
         return nm
 
     def add_accessor(self, acc):
         acc.id = len(self.accessors)
         acc.module = self.name
+        acc.scheme = (self.scheme, self.default)
         self.accessors.append(acc)
         return acc
 
     def text(self):
         out = ['[(cpp) namespace: "%s"]' % self.name, ""]
+        other = {"LE": "BE", "BE": "LE"}[self.default]
+        if self.scheme == 1:
+            out.insert(0, '[$default byte_order: "%s"]' % ORDER_ATTR[self.default])
+        elif self.scheme == 2:
+            out.insert(0, '[$default byte_order: "%s"]' % ORDER_ATTR[other])
         for n, s, b in ENUMS:
             out.append("enum %s:" % n)
             out.append("  [maximum_bits: %d]" % b)
@@ -235,9 +253,17 @@ class ModuleSpec:
             out.append("")
         for t in self.types:
             out.append(t.text())
+        decoy = ["struct Decoy:", '  [$default byte_order: "%s"]' % ORDER_ATTR[other],
+                 "  0 [+2]  UInt  dd", "  2 [+4]  Int  ee", ""]
+        if self.scheme == 1:
+            out.extend(decoy)
         out.append("struct Top:")
+        if self.scheme == 2:
+            out.append('  [$default byte_order: "%s"]' % ORDER_ATTR[self.default])
         out.extend(self.top_lines)
         out.append("")
+        if self.scheme == 2:
+            out.extend(decoy)
         return "\n".join(out)
 
 
@@ -287,7 +313,8 @@ def build_plan(rng, thorough=False, n_modules=None, kinds_per_triple=None):
             else:
                 items.append((c, o, w, k, None))
     nmod = n_modules or (22 if not thorough else max(22, len(items) // 110))
-    mods = [ModuleSpec("m%d" % i, opt=(i % 4 != 3)) for i in range(nmod)]
+    mods = [ModuleSpec("m%d" % i, opt=(i % 4 != 3), scheme=(i % 3), default=["LE", "BE"][(i // 3) % 2])
+            for i in range(nmod)]
     # distribute items round-robin by container size so that each module sees every size
     per_mod = [[] for _ in mods]
     for i, it in enumerate(items):
@@ -665,7 +692,8 @@ def coq_buf_out(root):
 
 def build_custom(name, descs, opt=True):
     """descs: list of Accessor.describe() dicts (cpp is recomputed)."""
-    m = ModuleSpec(name, opt=opt)
+    sch = (descs[0].get("scheme") or [0, "LE"]) if descs else [0, "LE"]
+    m = ModuleSpec(name, opt=opt, scheme=sch[0], default=sch[1])
     for d in descs:
         c, path, kind, w, enum = d["container_bytes"], [tuple(x) for x in d["path"]], d["kind"], d["width"], d.get("enum")
         order, boff = d["order"], d["byte_offset"]
